@@ -294,6 +294,12 @@ func randBounds(rng *rand.Rand, r int) (int, int) {
 // GenScript builds the table under the leader configuration and generates the
 // whole script while executing it there (the leader's events are recorded).
 func GenScript(rng *rand.Rand, leader WCfg, p, s int, tab *Table, iters, opsPer int, t *Trace) ([]Ev, error) {
+	return GenScriptV(rng, leader, p, s, tab, iters, opsPer, t, nil, 0)
+}
+
+// GenScriptV is GenScript with an optional virt{} step after the table and
+// ncopy CopySpan steps at the end.
+func GenScriptV(rng *rand.Rand, leader WCfg, p, s int, tab *Table, iters, opsPer int, t *Trace, virt Ev, ncopy int) ([]Ev, error) {
 	x := &Exec{U: NewUniv(p, s, leader.Shape), VC: Vals{Sizes: leader.ValSizes}, Cfg: leader, T: t}
 	x.reset()
 	defer x.CloseAll()
@@ -308,6 +314,13 @@ func GenScript(rng *rand.Rand, leader WCfg, p, s int, tab *Table, iters, opsPer 
 	script := []Ev{tab.Event("")}
 	x.emit(tab.Event(leader.Name))
 	h := 0
+	fragsOK := true
+	if virt != nil {
+		script = append(script, virt)
+		x.Step(virt)
+		// keyspan.Truncate requires that no span contains an inclusive end bound
+		fragsOK = !virt.B("vhiincl")
+	}
 	for i := 0; i < iters; i++ {
 		h++
 		lo, hi := randBounds(rng, x.U.R())
@@ -320,6 +333,9 @@ func GenScript(rng *rand.Rand, leader WCfg, p, s int, tab *Table, iters, opsPer 
 		x.Step(c)
 	}
 	for _, typ := range []string{"rd", "rk"} {
+		if !fragsOK {
+			break
+		}
 		if (typ == "rd" && len(tab.Rd) == 0 && rng.IntN(3) != 0) || (typ == "rk" && len(tab.Rk) == 0 && rng.IntN(3) != 0) {
 			continue
 		}
@@ -331,6 +347,14 @@ func GenScript(rng *rand.Rand, leader WCfg, p, s int, tab *Table, iters, opsPer 
 		c := Ev{"op": "close", "h": h}
 		script = append(script, c)
 		x.Step(c)
+	}
+	for i := 0; i < ncopy; i++ {
+		a := rng.IntN(x.U.R())
+		b := a + 1 + rng.IntN(x.U.R()-a)
+		e := Ev{"op": "copyspan", "a": a, "b": b}
+		script = append(script, e)
+		x.V = VirtP{}
+		x.Step(e)
 	}
 	return roundTrip(script), nil
 }
